@@ -269,6 +269,12 @@ def gen_params():
     from fractions import Fraction
     fr = Fraction(fp)
     min_alloc = int_const(db, "MIN_ALLOC_SIZE")
+    # the growth formula the theorems of C16 are about (`grownSize`): pinned textually
+    txs = strip_comments(src("tx.rs"))
+    if not re.search(r"let alloc_size = \(\(size_diff / MIN_ALLOC_SIZE\) \+ 1\) \* MIN_ALLOC_SIZE;", txs) or \
+       not re.search(r"resize\(file, current_size \+ alloc_size\)", txs) or \
+       not re.search(r"let size_diff = required_size - current_size;", txs):
+        raise GenError("tx.rs: the file-growth computation is no longer `((size_diff / MIN_ALLOC_SIZE) + 1) * MIN_ALLOC_SIZE` added to the current size")
     default_pages = int_const(db, "DEFAULT_NUM_PAGES")
     nm = re.search(r"fn needs_merging\(&self\) -> bool \{\s*self\.data\.len\(\) < MIN_KEYS_PER_NODE \|\| self\.size\(\) < \(self\.pagesize / (\d+)\)\s*\}", node)
     if not nm:
